@@ -16,6 +16,11 @@ def remove_dots(path):
     out = []
     segs = path.split('/')
     for i, s in enumerate(segs):
+        if '%' in s:
+            # "%2e" is an escaped unreserved character (RFC 3986 section 6.2.2.2)
+            d = re.sub(r'(?i)%2e', '.', s)
+            if d in ('.', '..'):
+                s = d
         if s == '.':
             if i == len(segs) - 1:
                 out.append('')
